@@ -247,10 +247,16 @@ class Registry:
     def scan_items(self):
         return [(k, self.scans[v]) for k, v in self.keys.items() if v in self.scans]
 
-    def slot_funcs(self, slot: str) -> set[str]:
-        """qualnames of flox functions used in a blueprint slot (finalize, preprocess, new_dims_func, ...)."""
+    def slot_funcs(self, slot: str, kind: str | None = None) -> set[str]:
+        """qualnames of flox functions used in a blueprint slot (finalize, preprocess, new_dims_func, ...);
+        kind 'agg' / 'scan' restricts to Aggregation / Scan blueprints."""
         out = set()
-        for r in list(self.aggs.values()) + list(self.scans.values()):
+        recs = []
+        if kind in (None, "agg"):
+            recs += list(self.aggs.values())
+        if kind in (None, "scan"):
+            recs += list(self.scans.values())
+        for r in recs:
             v = r.args.get(slot)
             if isinstance(v, Sym) and v.name.startswith("func:"):
                 out.add(v.name[5:])
